@@ -364,10 +364,10 @@ theorem keyok_replace {pre : Str} {s : St} {r : Scr} (h : Shows pre s r) (l : St
     KeyOk pre s r ({ s with hidx := hidx', line := l, cursor := l.length }, [.tag t, .tx .echo (cleanupTx s ++ l)]) := by
   obtain ⟨L, R, n, m, hln, hcur, hr, hm⟩ := shows_split h
   have hph := h.plainHist
-  obtain ⟨line, cursor, hist, hidx, opts, path⟩ := s
+  obtain ⟨line, cursor, hist, hidx, opts, path, tree⟩ := s
   simp only at hln hcur hph hle
   subst hln hcur hr
-  have c1 : cleanupTx { line := L ++ R, cursor := L.length, hist := hist, hidx := hidx, opts := opts, path := path } =
+  have c1 : cleanupTx { line := L ++ R, cursor := L.length, hist := hist, hidx := hidx, opts := opts, path := path, tree := tree } =
       rep R.length Msg.moveRight ++ rep (L.length + R.length) Msg.bsb := by
     have a : (L ++ R).length - L.length = R.length := by simp
     have b : max L.length (L ++ R).length = L.length + R.length := by simp
